@@ -627,7 +627,16 @@ func genSession14(c *Chooser) Session {
 	}
 	// an input may be something whose size stat cannot tell (`jd <(cmd) b`)
 	if c.Chance(1, 12) {
-		s.Links = append(s.Links, [2]string{[]string{an, bn}[c.Int(2)], sizeUnknownMark})
+		n := []string{an, bn}[c.Int(2)]
+		written := false
+		for _, p := range s.Procs {
+			if parseArgv(p.Argv).output == n {
+				written = true // a session that patches or diffs in place: the name is a file
+			}
+		}
+		if !written {
+			s.Links = append(s.Links, [2]string{n, sizeUnknownMark})
+		}
 	}
 	// a stale earlier result may already sit where -o is going to write
 	if c.Chance(1, 3) {
